@@ -357,3 +357,11 @@ V("C14-l-vec-bracket", "C14", "C14.6", (OPT, "        mask = fa * fs < 0\n      
 V("C14-s-bracket-swapped-branches", "C14", "silent", (OPT, "        if fa * fs < 0:\n            b = s\n            fb = fs\n        else:\n            a = s\n            fa = fs", "        if not (fa * fs < 0):\n            a, fa = s, fs\n        else:\n            b, fb = s, fs"))
 V("C03-n-restore-prev", "C03", "C03.6", (DS, "                            self.__t[self.counter + 1] = next_time\n", "                            self.__t[self.counter + 1] = prev_time\n"))
 V("C03-o-restore-stale-state", "C03", "C03.6", (DS, "                        next_state = self.__y[self.counter]\n", "                        next_state = self.__y[self.counter - 1] + dState\n"))
+V("C03-p-final-step-stops-loop", "C03", "C03.7", (DS, "                if not is_final_step:\n                    self.dt = new_dt\n", "                if not is_final_step:\n                    self.dt = new_dt\n                else:\n                    end_int = True\n"))
+V("C03-q-final-step-break", "C03", "C03.7", (DS, "                steps += 1\n", "                steps += 1\n                if is_final_step:\n                    break\n"))
+V("C02-s-stage-loop-from-1", "C02", "C02.2", (RKM, "    for stage in range(intermediate_stages_in.shape[-1]):", "    for stage in range(1, intermediate_stages_in.shape[-1]):"))
+V("C01-s-stage-loop-from-1", "C01", "C01.7", (RKM, "    for stage in range(intermediate_stages_in.shape[-1]):", "    for stage in range(1, intermediate_stages_in.shape[-1]):"))
+V("C01-t-stage-loop-from-0-silent", "C01", "silent", (RKM, "    for stage in range(intermediate_stages_in.shape[-1]):", "    for stage in range(0, intermediate_stages_in.shape[-1]):"))
+V("C07-s-sentinel-unchecked", "C07", "C07.7", (DS, "                                if not self.__events or last_occurrence[active_events[ev_idx]] == -1:", "                                if not self.__events:"))
+V("C09-s-sentinel-unchecked", "C09", "C09.5", (DS, "                                if not self.__events or last_occurrence[active_events[ev_idx]] == -1:", "                                if not self.__events:"))
+V("C07-t-sentinel-ge0-silent", "C07", "silent", (DS, "                                if not self.__events or last_occurrence[active_events[ev_idx]] == -1:", "                                if not self.__events or last_occurrence[active_events[ev_idx]] < 0:"))
